@@ -5,7 +5,7 @@
 (*  unit-for-unit identical to the corresponding direct encoding, otherwise  *)
 (*  the decoded units (harness-side compression of identical arrays).        *)
 (*  esc = the escape texts the harness fed to JSON::Parse (checked too).     *)
-EXTENDS Integers, QUnicode, Json, IOUtils
+EXTENDS QUnicodeImplDefs, Json, IOUtils
 Tr == ndJsonDeserialize(IOEnv.TRACE)
 VARIABLE l
 Same(x, direct, want) == IF x = <<>> THEN direct = want ELSE x = want
@@ -22,5 +22,8 @@ BSize == (Len(Tr) + NB - 1) \div NB
 OInit == l = 0
 ONext == \/ l = 0 /\ l' \in {0 - b : b \in 1..NB}
          \/ l < 0 /\ l' \in {i \in (((0 - l) - 1) * BSize + 1)..((0 - l) * BSize) : i <= Len(Tr)}
-Check == l <= 0 \/ EventOK(Tr[l]) \/ PrintT(<<"MISMATCH", l>>)
+\* the transcription (QUnicodeImplDefs, checked by TLC against QUnicode) is what the engine does
+Drifts(e) == ~(e.d8 = ImplUTF8(e.c, "current") /\ e.d16 = ImplUTF16(e.c, "current") /\ e.d32 = ImplUTF32(e.c, "current"))
+Check == /\ (l <= 0 \/ EventOK(Tr[l]) \/ PrintT(<<"MISMATCH", l>>))
+         /\ (l <= 0 \/ ~Drifts(Tr[l]) \/ PrintT(<<"DRIFT", l>>))
 =============================================================================
